@@ -312,4 +312,25 @@ theorem txStateResponseStart_attach (uid : Nat) (c : Conn) :
     · exact ⟨by simp [Conn.modTx, hd.2.1], by simp [Conn.modTx, hs.1]⟩
   · exact ⟨by rw [hd.2.1], by rw [hs.1]⟩
 
+
+theorem findTx_modTx (c : Conn) (uid : Nat) (f : Tx → Tx) (hf : ∀ x, (f x).uid = x.uid) :
+    (c.modTx uid f).findTx uid = (c.findTx uid).map f := by
+  unfold Conn.modTx Conn.findTx
+  simp only
+  induction c.txs with
+  | nil => rfl
+  | cons o rest ih =>
+    cases o with
+    | none => simpa [List.find?] using ih
+    | some x =>
+      by_cases h : x.uid = uid
+      · have h2 : (f x).uid = uid := by rw [hf]; exact h
+        simp [List.find?, h, h2]
+      · have h' : (x.uid == uid) = false := by simpa using h
+        simp only [List.map_cons, h', List.find?]
+        simpa [h'] using ih
+
+theorem findTx_outState (c : Conn) (s : ResState) (uid : Nat) : ({ c with outState := s } : Conn).findTx uid = c.findTx uid := rfl
+
+
 end Htp.Conn
